@@ -98,7 +98,7 @@ def required (c : Case) : List Entry :=
 
 def spec (c : Case) (o : Obs) : Bool :=
   o.defErr == "" &&
-  o.poisonOk && o.neutralOk && o.sourceOk &&
+  o.poisonOk && o.neutralOk && o.sourceOk && o.sharedOk &&
   o.table.all (entryOk c) &&
   (required c).all (fun r => o.table.contains r)
 
@@ -113,7 +113,8 @@ def sameSet {α : Type} [BEq α] (a b : List α) : Bool := a.all (b.contains ·)
 
 def agreeA (m o : Obs) : Bool :=
   m.defErr == o.defErr && sameSet m.table o.table && sameSet m.injected o.injected &&
-  m.poisonOk == o.poisonOk && m.neutralOk == o.neutralOk && m.sourceOk == o.sourceOk
+  m.poisonOk == o.poisonOk && m.neutralOk == o.neutralOk && m.sourceOk == o.sourceOk &&
+  m.sharedOk == o.sharedOk
 
 def check : Check Case Obs := { model := model, spec := spec, wf := wf, known := known }
 
